@@ -529,6 +529,18 @@ func (w *W) Invariants() {
 		// (evaluated in msat: invoices need not be whole sats)
 		thousand := big.NewInt(1000)
 		outstanding := new(big.Int).Sub(ti, tr) // unspent + pending-locked value signed by the mint
+		// ... by the mint's own books too: a signature that sits in the store is obtainable through restore whether or not
+		// the request it was made for succeeded, so it is outstanding ecash
+		si, sr := new(big.Int), new(big.Int)
+		for _, v := range gotI {
+			si.Add(si, new(big.Int).SetUint64(v))
+		}
+		for _, v := range gotR {
+			sr.Add(sr, new(big.Int).SetUint64(v))
+		}
+		if so := new(big.Int).Sub(si, sr); so.Cmp(outstanding) > 0 {
+			outstanding = so
+		}
 		outstanding.Mul(outstanding, thousand)
 		so, inflight := w.LN.SumOutMsat("a")
 		lhs := new(big.Int).Add(outstanding, new(big.Int).SetUint64(so))
